@@ -242,4 +242,20 @@ def run(repo, tier):
     ])
     from .common import run_clone_pairs
     run_clone_pairs(repo, res, {m for m in repo.modules if m.startswith('photutils.background') and '.tests' not in m})
+    from .common import run_loopvar_used, run_no_overwrite_input
+    run_loopvar_used(repo, res, MODS)
+    run_no_overwrite_input(repo, res, MODS)
+    fg = repo.method(B2D, '_filter_grid')
+    tests = [n_.test for n_ in ast.walk(fg.node) if isinstance(n_, ast.If)]
+    okf = any('self.filter_threshold < self._min_bkg_stats' in unparse(t_, 0).replace('(', '').replace(')', '') for t_ in tests)
+    res.oblige('SPEC', '_filter_grid filters the whole mesh iff the threshold is below the smallest BACKGROUND statistic', okf, nontrivial=True)
+    if not okf:
+        res.add(Finding('SPEC', fg.fullname, 'whole-mesh filter decision', fg.loc,
+                        '_filter_grid must compare filter_threshold with self._min_bkg_stats (minimum of the background statistics) for '
+                        'both meshes; comparing with the mesh it was handed filters the RMS mesh at other boxes than the background mesh', {}))
+    apply_specs(repo, res, [(B2D + '.__init__', 'stmt', 'self._min_bkg_stats = nanmin(self._bkg_stats)',
+                             'smallest BACKGROUND statistic kept for the filter decision')])
+    if repo.functions.get(B2D + '._sigmaclip_boxes') is not None:
+        apply_specs(repo, res, [(B2D + '._sigmaclip_boxes', 'stmt', 'data = self.sigma_clip(data, axis=axis, masked=False, copy=False)',
+                                 'boxes clipped along the axis (or axes) the caller names: the corner box is ONE sample')])
     return res
